@@ -88,7 +88,8 @@ def sparse_cases(ctx, thorough):
 def run(ctx):
     del CROPS[:]
     thorough = ctx.tier == "thorough"
-    broken = common.proof_step(ctx, THEOREMS, BRIDGES, allowed_axioms=common.REALS_AXIOMS + common.PRIMITIVE_AXIOMS)
+    broken = common.proof_step(ctx, THEOREMS, BRIDGES, allowed_axioms=common.REALS_AXIOMS + common.PRIMITIVE_AXIOMS,
+                               coqchk_admit=("proofs.BasisTable",))
     err = common.ensure_runners(ctx)
     if err:
         ctx.violation({"kind": "build", "names": "harness build failed", "log": err[-2000:]}, "harness does not build", found_input=False)
